@@ -373,7 +373,7 @@ def outcomes(an, f, start, env, stop_at_loop=True):
         seen.add(i)
         n = c.nodes[i]
         if n.kind == 'test':
-            v = eval_cond(f, n.ast, env)
+            v = eval_test(an, f, n.ast, env)
             if v is UNKNOWN:
                 stack.extend(s for s in c.succ[i]
                              if (i, s) not in c.exc_edges)
@@ -996,6 +996,22 @@ def cond_branches(an, f, match, value):
     return out
 
 
+def eval_test(an, f, e, env):
+    """eval_cond, and when a local bound several times keeps it undecided,
+    once more with each name replaced by the binding that reaches e."""
+    v = eval_cond(f, e, env)
+    if v is not UNKNOWN:
+        return v
+    if not any(isinstance(x, ast.Name) and len(stores_to(f, x.id)) > 1
+               for x in ast.walk(e)):
+        return v
+    try:
+        txt = flow_canon(an, f, e)
+        return eval_cond(f, _parse_expr(txt), env)
+    except (SyntaxError, AnalysisError, KeyError):
+        return UNKNOWN
+
+
 def returns_under(an, f, env):
     """Set of results f can produce when its conditions evaluate as env
     says (see eval_cond): True / False / None for returned values that can
@@ -1011,7 +1027,7 @@ def returns_under(an, f, env):
         seen.add(i)
         n = c.nodes[i]
         if n.kind == 'test':
-            v = eval_cond(f, n.ast, env)
+            v = eval_test(an, f, n.ast, env)
             if v is UNKNOWN:
                 stack.extend(s for s in c.succ[i]
                              if (i, s) not in c.exc_edges)
@@ -1036,6 +1052,47 @@ def returns_under(an, f, env):
             if (i, s) not in c.exc_edges:
                 stack.append(s)
     return out
+
+
+def regex_match(f, e, verbs=('match',)):
+    """(pattern expr, subject expr) of `re.match(P, S)` or
+    `<compiled P>.match(S)` -- the compiled pattern being the
+    re.compile(...) call or a local bound to it; None otherwise."""
+    if not isinstance(e, ast.Call):
+        return None
+    d = dotted(e.func)
+    if d is not None and d.startswith('re.') and d[3:] in verbs and e.args:
+        return e.args[0], (e.args[1] if len(e.args) > 1 else None)
+    if isinstance(e.func, ast.Attribute) and e.func.attr in verbs and \
+            len(e.args) == 1:
+        comp = substitute_locals(f, e.func.value)
+        if isinstance(comp, ast.Call) and dotted(comp.func) == 're.compile' \
+                and comp.args:
+            return comp.args[0], e.args[0]
+    return None
+
+
+def reachable_under(an, f, env):
+    """Ids of the CFG nodes f can reach when its conditions evaluate as env
+    says (see eval_cond); undecided conditions go both ways."""
+    c = an.cfg(f)
+    seen = set()
+    stack = [c.entry]
+    while stack:
+        i = stack.pop()
+        if i in seen:
+            continue
+        seen.add(i)
+        n = c.nodes[i]
+        if n.kind == 'test':
+            v = eval_test(an, f, n.ast, env)
+            if v is not UNKNOWN:
+                stack.extend(c.branch(n, bool(v)))
+                continue
+        for s in c.succ[i]:
+            if (i, s) not in c.exc_edges:
+                stack.append(s)
+    return seen
 
 
 # ----------------------------------------------- flow-sensitive substitution
@@ -1172,7 +1229,7 @@ def iteration_outcomes(an, f, loop, env, marks=None):
         if i in marks:
             out.add(('mark', marks[i]))
         if n.kind == 'test':
-            v = eval_cond(f, n.ast, env)
+            v = eval_test(an, f, n.ast, env)
             if v is UNKNOWN:
                 stack.extend(s for s in c.succ[i]
                              if (i, s) not in c.exc_edges)
